@@ -18,8 +18,8 @@ def queries():
     qs.append(mk(3, 2, 'comb', 1, 0, quick=True))
     qs.append(mk(3, 2, 'lt', 1, 0, quick=True))          # k=3 non-combined -> guarded 3-way variant
     qs.append(mk(3, 2, 'sent', 1, 1, quick=True))        # unguarded 3-way variant with sentinels
-    qs.append(mk(4, 1, 'comb', 1, 0, quick=True))
-    qs.append(mk(4, 1, 'lt', 0, 0, quick=True))
+    qs.append(mk(4, 1, 'comb', 1, 0, timeout=7200))   # measured: the 4-way goto state machine (43 back-edge targets) does not finish bound tuning in 15 min
+    qs.append(mk(4, 1, 'lt', 0, 0, timeout=7200))
     qs.append(mk(5, 1, 'lt', 1, 0, quick=True))
     qs.append(mk(5, 1, 'bubble', 1, 0, quick=True))
     qs.append(mk(5, 1, 'comb', 0, 0, quick=True))
